@@ -848,7 +848,8 @@ def rule_autoparam(ctx) -> RuleResult:
         sources.append((f, bind, mparam))
     if not any(f.qualname.endswith("dask_groupby_agg") for f, _, _ in sources):
         raise AnalysisError("groupby_reduce no longer hands the chosen method to dask_groupby_agg (anchor)")
-    user_params = set(gr.params)
+    # options, not data: the keyword-only parameters of the entry point (the array and the labels are not something the chooser could 'consult')
+    user_params = {a.arg for a in gr.node.args.kwonlyargs} or set(gr.params[1:])
     # the statement that decides whether find_group_cohorts may propose a plan
     chooser = None
     for st in walk_own(gr.node):
@@ -877,7 +878,8 @@ def rule_autoparam(ctx) -> RuleResult:
     for f, bind, mparam in sources:
         for st, S, data in _plan_refusals(f, mparam):
             for lf in data:
-                roots = {norm(bind[x]).split(".")[0].split("[")[0] for x in names_in(lf) if x in bind}
+                # locals that normalise a parameter (reindex_ = reindex if isinstance(...) else Strategy(blockwise=reindex)) count as that parameter
+                roots = {norm(bind[x]).split(".")[0].split("[")[0] for x in (names_in(lf) | (_dep_names(f, lf) & set(f.params))) if x in bind}
                 roots = {r for r in roots if r in user_params and r != mvar}
                 if not roots:
                     continue
@@ -1087,6 +1089,69 @@ def rule_axisorder(ctx) -> RuleResult:
                            f"'{var} = {norm(a.value)[:60]}' keeps the user's order, but {len(positional)} stage(s) address the tuple by position "
                            f"(e.g. {positional[0][0]}: '{norm(positional[0][2])}'): axis=(1, 0) on a dask array fails inside the combine with \"duplicate value in 'axis'\" "
                            "(or 'adjust_chunks' for cohorts) although the eager call and axis=(0, 1) work")
+    return res
+
+
+# ---------------------------------------------------------------------------------------------
+# R-NORMFORM (C19): refusals test the normalised form of an option that has two spellings.
+# `reindex` may be a bool or a ReindexStrategy; _validate_reindex normalises it (`N = P if isinstance(P, C) else C(field=P)`).  A refusal whose
+# guard looks at the raw parameter (`P is True`) only sees one spelling: the other passes validation and fails later with an internal error.
+# Every refusal of a function that contains such a normalisation must be keyed on the normalised local, not on the raw parameter.
+def rule_normform(ctx) -> RuleResult:
+    res = RuleResult("R-NORMFORM", "refusals keyed on an option with two spellings test its normalised form", min_instances=1)
+    prog = ctx.prog
+    found = 0
+    for q, f in sorted(prog.funcs.items()):
+        if isinstance(f.node, ast.Lambda) or f.is_overload:
+            continue
+        norms = []     # (param, normalised local, class)
+        for st in walk_own(f.node):
+            t = None
+            if isinstance(st, ast.If) and isinstance(st.test, ast.Call) and norm(st.test.func) == "isinstance" and len(st.test.args) == 2 \
+                    and isinstance(st.test.args[0], ast.Name) and st.test.args[0].id in f.params and st.orelse:
+                P, C = st.test.args[0].id, norm(st.test.args[1])
+                b = [a for a in st.body if isinstance(a, ast.Assign) and len(a.targets) == 1 and isinstance(a.targets[0], ast.Name) and norm(a.value) == P]
+                o = [a for a in st.orelse if isinstance(a, ast.Assign) and len(a.targets) == 1 and isinstance(a.targets[0], ast.Name)
+                     and isinstance(a.value, ast.Call) and norm(a.value.func) == C and P in names_in(a.value)]
+                if b and o and b[0].targets[0].id == o[0].targets[0].id:
+                    t = (P, b[0].targets[0].id, C, st)
+            if isinstance(st, ast.Assign) and isinstance(st.value, ast.IfExp) and len(st.targets) == 1 and isinstance(st.targets[0], ast.Name):
+                ie = st.value
+                if isinstance(ie.test, ast.Call) and norm(ie.test.func) == "isinstance" and len(ie.test.args) == 2 and isinstance(ie.test.args[0], ast.Name) \
+                        and ie.test.args[0].id in f.params and norm(ie.body) == ie.test.args[0].id and isinstance(ie.orelse, ast.Call) and norm(ie.orelse.func) == norm(ie.test.args[1]):
+                    t = (ie.test.args[0].id, st.targets[0].id, norm(ie.test.args[1]), st)
+            if t:
+                norms.append(t)
+        if not norms:
+            continue
+        found += 1
+        for P, N, C, where in norms:
+            par = parents_map(f.node)
+            for st in walk_own(f.node):
+                if not (isinstance(st, ast.If) and any(isinstance(b, ast.Raise) for b in st.body)):
+                    continue
+                leaves = _flat(st.test, ast.And)
+                cur = st
+                for a in ancestors(st, par):
+                    if isinstance(a, ast.If) and any(cur is b for b in a.body):
+                        leaves = _flat(a.test, ast.And) + leaves
+                    if isinstance(a, (ast.If, ast.For, ast.While, ast.With, ast.Try)):
+                        cur = a
+                    if a is f.node:
+                        break
+                raw = [lf for lf in leaves if P in names_in(lf) and not (isinstance(lf, ast.Call) and norm(lf.func) == "isinstance")]
+                normed = [lf for lf in leaves if N in names_in(lf)]
+                if not raw and not normed:
+                    continue
+                res.inst(f"{q}: refusal '{norm(st.test)[:50]}' keyed on the normalised '{N}': {bool(normed) and not raw}", f"{q}|{st.lineno}")
+                if raw:
+                    res.report(f"{q}|refusal-on-raw-spelling|{P}|{norm(raw[0])[:30]}", f.where(st), q,
+                               f"the refusal '{norm(st.test)[:60]}' is guarded by '{norm(raw[0])}', a test of the raw parameter `{P}`, although the function normalises "
+                               f"`{P}` to a {C} ('{N}'): the other spelling ({C}(…) instead of the plain value) passes validation and the unsupported request "
+                               "fails later with an internal error instead of this refusal")
+    if not found:
+        res.notes.append("no option is normalised from two spellings in the package: rule not applicable")
+        res.min_instances = 0
     return res
 
 
